@@ -14,7 +14,7 @@ func Checks() map[string]*simcore.Check {
 func check06() *simcore.Check {
 	return &simcore.Check{
 		ID: "C06", Engine: "triesim", Level: "exploration",
-		Rule: "plans = a key pool (1-3 byte keys over 4 symbols incl. keys that are prefixes of others / 2-byte keys over all 16 first nibbles / fixed 3-byte keys / 32-byte keys with long shared prefixes), 3-7 values (tiny to 70 bytes) and 10-80 operations (Update, empty-value Update, Delete, UpdateBatch of 1-96 entries incl. whole-first-nibble wipes, fan-out over all nibbles, all-but-one deletions and repeated keys, Prefetch, Hash, Get, full iteration, Commit + triedb.Update [+ flush to the simulated disk] [+ cold restart] + reopen) on a real trie over real hashdb/pathdb over SimKV; in gated plans every node read of the goroutines of UpdateBatch/Prefetch parks at a gate and the tape picks who reads next. Non-trivial = the scheduler had a real choice (>=2 parked readers) at >=2 steps, or the injected missing-node fault fired. Distinct = distinct (released-gate sequence, operation/root log) fingerprints.",
+		Rule: "plans = a key pool (1-3 byte keys over 4 symbols incl. keys that are prefixes of others / 2-byte keys over all 16 first nibbles / fixed 3-byte keys / 32-byte keys with long shared prefixes), 3-7 values (tiny to 70 bytes) and 10-80 operations (Update, empty-value Update, Delete, UpdateBatch of 1-96 entries incl. whole-first-nibble wipes, fan-out over all nibbles, all-but-one deletions and repeated keys, Prefetch, Hash, Get, full iteration, Trie.Copy modified and dropped, Commit + triedb.Update [+ flush to the simulated disk] [+ cold restart] + reopen) on a real trie over real hashdb/pathdb over SimKV; in gated plans every node read of the goroutines of UpdateBatch/Prefetch parks at a gate and the tape picks who reads next. Non-trivial = the scheduler had a real choice (>=2 parked readers) at >=2 steps, or the injected missing-node fault fired. Distinct = distinct (released-gate sequence, operation/root log) fingerprints.",
 		Assumptions: []string{
 			"interleavings of UpdateBatch goroutines between two node reads (shared opTracer/prevalueTracer maps, both mutex protected) are not decided; perturbed by GOMAXPROCS only",
 			"hasher/committer parallelism (>=100 unhashed / >100 uncommitted updates) has no seam and is perturbed only",
@@ -28,14 +28,14 @@ func check06() *simcore.Check {
 		Runs:      map[string]int{"quick": 16000, "thorough": 1500000},
 		Gen:       Gen06, Decode: Decode06, Run: Run06, Shrink: Shrink06,
 		ProbeNames: []string{"batch-goroutines-interleaved", "batch-above-threshold", "batch-below-threshold", "batch-16-nibble-fanout",
-			"batch-with-deletions", "batch-collapses-root", "stacktrie-compared", "full-iteration", "flushed-to-disk", "cold-restart", "root-revisited"},
+			"batch-with-deletions", "batch-collapses-root", "stacktrie-compared", "full-iteration", "flushed-to-disk", "cold-restart", "root-revisited", "copy-dropped"},
 	}
 }
 
 func check07() *simcore.Check {
 	return &simcore.Check{
 		ID: "C07", Engine: "triesim", Level: "exploration",
-		Rule: "plans = key pool (as C06), an account trie plus 0-2 storage tries (owner != 0, their roots linked into the account trie), 1-6 commit generations; per generation and trie a modification list (random edits, delete everything, delete everything and insert a different set, single-key flips, 101-300 updates for the parallel committer, nothing; sequential or UpdateBatch, Delete or empty-value Update, optional Hash() half way), then Commit -> triedb.Update (hashdb or pathdb on SimKV) [-> flush to disk] [-> cold restart]. Non-trivial = at least two generations (a committed trie is modified and re-committed). Distinct = distinct (roots, contents) logs.",
+		Rule: "plans = key pool (as C06), an account trie plus 0-2 storage tries (owner != 0, their roots linked into the account trie), 1-6 commit generations; per generation and trie a modification list (random edits, delete everything, delete everything and insert a different set, single-key flips, 101-300 updates for the parallel committer, nothing; sequential or UpdateBatch, Delete or empty-value Update, optional Hash() half way; in 35% a Trie.Copy() taken at a planned point, optionally after reading every key, modified with mostly deletions, root-checked, optionally committed, and dropped), then Commit -> triedb.Update (hashdb or pathdb on SimKV) [-> flush to disk] [-> cold restart]. Non-trivial = at least two generations (a committed trie is modified and re-committed). Distinct = distinct (roots, contents) logs.",
 		Assumptions: []string{
 			"the parallel committer's goroutines have no seam; perturbed by GOMAXPROCS only",
 			"the path-scheme disk is compared only after a full flush (it lags the layers by design)",
@@ -48,7 +48,7 @@ func check07() *simcore.Check {
 		Perturbed: []string{"parallel committer goroutines"},
 		Runs:      map[string]int{"quick": 12000, "thorough": 1000000},
 		Gen:       Gen07f, Decode: Decode07, Run: Run07, Shrink: Shrink07,
-		ProbeNames: []string{"nodeset-deletion", "parallel-committer", "trie-emptied", "flushed-to-disk", "cold-restart", "path-disk-compared", "hash-disk-compared", "stacktrie-nodes-compared", "root-revisited"},
+		ProbeNames: []string{"nodeset-deletion", "parallel-committer", "trie-emptied", "flushed-to-disk", "cold-restart", "path-disk-compared", "hash-disk-compared", "stacktrie-nodes-compared", "root-revisited", "copy-dropped", "copy-committed"},
 	}
 }
 
